@@ -343,6 +343,8 @@ class FunctionVerifier:
         self._res("raises", "no-other-exception")
 
         def one_path():
+            from . import interp as _ip
+            _ip.ELEM_TEXT.clear()
             ip = Interp(eng, registry=self.registry, float_mode=c.float_mode or "real")
             self.ip = ip
             ip.target_func = loader.unwrap(fobj)
